@@ -5,8 +5,8 @@ VERIF = os.path.dirname(os.path.dirname(os.path.abspath(__file__)))
 
 # property id -> (DESIGN section, level text, level note)
 CLAIMED = {
- "C01": ("§5 C01", "Exhaustive runtime sweep: all 2^32 day numbers (thorough, overflow-checked build) are pushed through from_timestamp/as_ymd/from_ymd/timestamp and judged against an independent calendar model, plus a boundary-dense grid of (year, month, day) triples; quick explores the structurally interesting 5e6 days. Held = no disagreement on the executions listed in the evidence.",
-         "Trusted base: the harness calendar model (self-checked at start-up against a day-by-day walk). Triples are sampled (grid + random), not exhaustive over 5.4e9."),
+ "C01": ("§5 C01", "Exhaustive runtime sweep: all 2^32 day numbers and all 5.4e9 (year, month 0..=13, day 0..=32) triples (every run of the overflow-checked build, quick included; thorough also the release build) are pushed through from_timestamp/as_ymd/from_ymd/timestamp and judged against an independent calendar model, plus boundary-dense grids and neighbour call sequences. Held = no disagreement on the executions listed in the evidence.",
+         "Trusted base: the harness calendar model (self-checked at start-up against a day-by-day walk). Exhaustive over the statement's quantifier in the overflow-checked build; the release build is sampled in quick."),
  "C02": ("§5 C02", "Exhaustive runtime sweep of weekday()/day_of_year() and of the e/w/q/D format fields over all 2^32 days (thorough), year-grid x day-of-year 0..=367 for the setter; quick covers the era boundary, 1600-2400, both range ends and a strided pass.",
          "Trusted base: calendar model (ISO week = week of the Thursday on astronomical years)."),
  "C03": ("§5 C03", "Stratified exploration of i64 timestamps (range edges, alignment classes, out-of-range) and of instant pairs with independent offsets; every ==/cmp/*_since sign is compared with i128 model instants.",
@@ -30,13 +30,13 @@ CLAIMED = {
  "C12": ("§5 C12", "Random (value, pattern) round trips with patterns drawn from an explicit unambiguous-field grammar; string-level fixpoint, instant/offset recovery when the pattern is complete, defaults for absent fields.",
          "The grammar (model/pattern_gen.rs) is the quantifier: patterns outside it are not judged."),
  "C13": ("§5 C13", "Write side: local instants in years 1-9999 x whole-minute offsets x 5 precisions, output recognised by a hand-written RFC 3339 recogniser and mapped back to the instant; read side: ABNF-generated timestamps with every fraction length 0..=40, both entry points, plus single-field mutations that must be rejected.",
-         "Trusted base: model/rfc3339.rs (generator, recogniser, reader). Second 60, lower-case t/z and year 0000 are not judged."),
+         "Trusted base: model/rfc3339.rs (generator, recogniser, reader). Second 60 at 23:59 UTC, lower-case t/z and year 0000 with all other fields in range are not judged."),
  "C14": ("§5 C14", "Exhaustive enumeration of every short input over a hostile alphabet for each single symbol x width and of every short quote-shape pattern, plus mutation of real round-trip material, RFC 3339/FromStr/cron strings, range-end values with offsets and 10 000-character inputs; the only oracle is the outcome class (Ok with a valid value / Err / panic) in an overflow-checked and a release build.",
          "Exhaustive only up to the stated lengths; beyond that mutational."),
  "C15": ("§5 C15", "Boundary-dense argument grids and random tuples for every fallible constructor and setter; accept/reject compared with documented ranges + calendar model, error kind checked, and the range stated in the error text checked for consistency with what is accepted.",
          "Which parameter is named when several are invalid, and wording, are not judged."),
  "C16": ("§5 C16", "Grammar-generated expressions, every value/range/step/name per field, and all single-character edits of base expressions judged against a reference grammar; for accepted expressions the denoted sets are observed behaviourally by pinning the clock and asking next() one membership question per field value.",
-         "Needs the clock hook. Shapes the documentation does not settle (leading zeros, a-b/n, steps above the field size, ? L W #) are skipped."),
+         "Needs the clock hook. Shapes the documentation does not settle (a-b/n, steps above the field size, ? L W #) are skipped; zero-padded numbers are judged only when the crate accepts them, against their numeric reading."),
  "C17": ("§5 C17", "Recorded histories of 4-40 next() calls under a pinned clock that advances arbitrarily between calls, checked event by event against an executable model (earliest matching minute after max(previous, now)); clone continuity.",
          "Satisfiable schedules, non-decreasing clock, years -9999..9999; needs the clock hook."),
  "C18": ("§5 C18", "The vendored IANA corpus (fat + slim) and synthetic v1/v2/v3 files looked up at every transition -1/0/+1 s, every rule switch +-1 s over 16 years and random timestamps, compared with an RFC 8536 / POSIX-TZ reference that is itself cross-checked against CPython zoneinfo on the same lookups; a sample goes end-to-end through Offset::Local.",
@@ -50,6 +50,23 @@ CLAIMED = {
 _SEQ = " Every 61st case runs as the first calls of a fresh thread; call sequences of related values (siblings, then the first again) are part of the workload."
 _MAG = " Instants, differences, counts and Durations are also placed at 2^k·unit magnitudes (2^15…2^64 of ns…weeks)."
 _LOC = " Values carrying Offset::Local (system zone and clock redirected by the hooks) are compared with their Offset::Fixed twins."
+_R9 = {
+ "C02": " The e/D/w/q fields are also read in random company of other symbols (Date, DateTime in the first/last hour of the local day).",
+ "C03": " One pair in eight is a representation relative of the first operand (radix/xor folds of day and time fields, bitwise unit relatives, wrapped residues).",
+ "C06": " One pair in eight is a representation relative of the first operand (radix/xor folds, bitwise unit relatives, wrapped residues), for DateTime and Time.",
+ "C07": " Anniversary pairs at any distance (months, whole years, whole 400-year cycles, 2^j months) with structured times of day.",
+ "C10": " Fields in random company: the offset value and the offset-free shifted value get the same pattern; format_rfc3339 fields under any offset.",
+ "C11": " EVERY Unicode scalar value as a literal (exhaustive); a corpus of 62 common patterns for every type.",
+ "C12": " The unambiguous part of the common-pattern corpus; the other type's symbol runs as literal delimiters.",
+ "C13": " Rejection through parse_rfc3339 and FromStr; several fields out of range at once; sentinel grid (0000-00-00 … 9999-99-99); second 60 away from 23:59 UTC.",
+ "C14": " The text APIs also run under a hostile pinned clock (range ends, era boundary, 2^k) and redirected zone (hooks).",
+ "C15": " Result-directed setter cases: the result is drawn at a range end, the receiver derived from it.",
+ "C16": " Results pulled through nth/skip/take/step_by/for-loops as well as next(); zero-padded numbers judged against their numeric reading when accepted.",
+ "C17": " Results pulled through nth(k)/skip(k)/take(k+1); clone_from across used/unused source and target states; one-field-restricted schedules.",
+ "C18": " Designations and footer names that look like syntax or are long/quoted; a transition spelling the magic.",
+ "C19": " Self-aligned files whose header fields are all drawn independently.",
+ "C20": " Display through width/fill/precision/flags/forwarding wrapper.",
+}
 EXTRA = {
  "C01": _SEQ, "C02": _SEQ + " set_day_of_year is also judged in the two partly representable years with offsets.",
  "C03": _MAG + _SEQ + _LOC + " Values whose local reading lies beyond a range end are compared as well.",
@@ -64,6 +81,10 @@ EXTRA = {
  "C18": _SEQ + " Lookups of several zones interleaved on one thread; 32-bit time_t limits probed.", "C19": _SEQ + " Enumerated magnitude ladder for every numeric footer slot; bases with 254/255/256 types; accepted files looked up at their own transitions.",
  "C20": _MAG + _SEQ + " One instant under changing offsets in sequence; Offset::Local under a changing system zone (hooks); relative claims judged on every constructible value.",
 }
+
+for _k, _v in _R9.items():
+    EXTRA[_k] = EXTRA.get(_k, "") + _v
+
 
 def main():
     props = [json.loads(l) for l in open(os.path.join(VERIF, "properties.jsonl"))]
@@ -85,7 +106,7 @@ def main():
                 "evidence_file": "/verif/evidence/%s.json" % pid,
                 "replay_cmd_template": "./check --replay {path}",
                 "engine": "astromon",
-                "level_claimed": {"category": "fault_enumeration" if pid == "C19" else "exploration", "text": text + EXTRA.get(pid, ""), "design_ref": ref + ", §10.11"},
+                "level_claimed": {"category": "fault_enumeration" if pid == "C19" else "exploration", "text": text + EXTRA.get(pid, ""), "design_ref": ref + ", §10.11–§10.13"},
                 "level_note": note,
                 "technique": "runtime monitoring: reference-model oracle + panic/overflow trap (arithmetic sanitizer build and release build) over generated and enumerated executions; results observed differentially through every public read-out route against independently built values; call-sequence and fresh-thread histories for hidden state",
             })
